@@ -135,6 +135,7 @@ def class_instance(d, path, combo, new_name=None):
     rec['op'] = [{'o': m['o'], 'r': _ret(m['r'], env, this), 'a': _args(m['a'], env, this), 'c': int(bool(m['c']))}
                  for m in d['m'] if m['k'] == 'op']
     rec['enum'] = [m['n'] for m in d['m'] if m['k'] == 'enum']
+    rec['enum_full'] = [{'n': m['n'], 'e': list(m['e'])} for m in d['m'] if m['k'] == 'enum']
     rec['dunder'] = [m['n'] for m in d['m'] if m['k'] == 'dunder']
     return rec
 
@@ -286,6 +287,7 @@ def observe_scope(ns):
             rec['op'] = [{'o': m.operator, 'r': _o_ret(m.return_type), 'a': _o_args(m.args),
                           'c': int(bool(m.is_const))} for m in d.operators]
             rec['enum'] = [e.name for e in d.enums]
+            rec['enum_full'] = [{'n': e.name, 'e': [x.name for x in e.enumerators]} for e in d.enums]
             rec['dunder'] = [m.name for m in d.dunder_methods]
             out.append(rec)
         elif isinstance(d, ti.InstantiatedGlobalFunction):
